@@ -166,6 +166,14 @@ MUTANTS = [
     ("del-reset-state", "bevy/src/animator.rs", "        self.state = AnimationState::None;\n", "", ["C18", "C19"], None),
     ("del-system-order", "bevy/src/lib.rs", "(chain_animations::<K, T>, select_animation::<K, T>).before(animate::<T>),",
      "(chain_animations::<K, T>, select_animation::<K, T>),", ["C19"], "system-ordering"),
+    ("del-derive-start-with", "macros/src/derive_animate.rs", "                #(#start_value_assignments)*\n", "", ["C17", "C04", "C10"], None),
+    ("derive-update-skips-delay", "macros/src/derive_animate.rs", "                #(#value_assignments)*\n",
+     "                if time < self.timescale.get_delay() { return; }\n                #(#value_assignments)*\n", ["C10", "C17", "C01", "C08"],
+     "sub-timeline-not-consulted"),
+    ("del-advance-guard", "core/src/animator.rs",
+     "        let elapsed = if elapsed_seconds >= Duration::MAX.as_secs_f32() {\n            Duration::MAX\n        } else {\n            Duration::from_secs_f32(elapsed_seconds)\n        };",
+     "        let elapsed = Duration::from_secs_f32(elapsed_seconds);", ["C20"], None),
+    ("del-animator-default-state", "macros/src/fn_animator.rs", "                #default_state_assignment\n", "", ["C16"], None),
     ("c20-lerp-difference", "core/src/interpolation.rs", "        self * (1.0 - x) + y1 * x\n", "        self + (y1 - self) * x\n", ["C20"],
      "intermediate-unbounded"),
 ]
